@@ -292,6 +292,7 @@ class G:
             methods = methods + ["derives"]      # a user method with the name of Object's built-in one: nearest definition wins all the same
         defined = {}
         extra = {}
+        statics = {}
         for i, n in enumerate(names):
             attrs = ["constructor(new)"]
             if i > 0:
@@ -317,6 +318,15 @@ class G:
             if self.r.chance(1, 3):
                 self.tag("static")
                 lines += ["    #[static]", "    fn make(x) { return Self.new%s; }" % ("(x)" if self.ctor_takes_arg(n, lines) else "()")]
+            if self.r.chance(1, 2):
+                # static methods that reach the superclass's static method: the receiver handed on must be the class the call came through
+                if i > 0 and any("who" in statics.get(a, []) for a in names[:i]) and self.r.chance(2, 3):
+                    self.tag("super-in-static")
+                    lines += ["    #[static]", "    fn who() { return \"%s>\" + super.who(); }" % n]
+                else:
+                    self.tag("static-who")
+                    lines += ["    #[static]", "    fn who() { return \"%s:\" + String.from(Self); }" % n]
+                statics.setdefault(n, []).append("who")
             if self.r.chance(1, 2):
                 self.tag("bound-super")
                 if i > 0 and any("m1" in defined[a] for a in names[:i]):
@@ -359,6 +369,18 @@ class G:
                 lines += self.guarded_print("%s.up(\"u\")" % o)
             if "grab" in have:
                 lines += ["try { var g = %s.grab(); print(g(\"g\")); } catch e { print(type(e)); print(e.context); }" % o]
+        # static methods through the class that defines or inherits nothing of them (statics are not inherited through the class value:
+        # only the defining classes are asked), and constructors / `derives` taken as VALUES through an instance: they stay bound to it
+        for j, n in enumerate(names):
+            if "who" in statics.get(n, []):
+                lines += self.guarded_print("%s.who()" % n)
+            if self.r.chance(1, 3):
+                self.tag("ctor-as-value")
+                arg = "(\"w\")" if self.ctor_takes_arg(n, lines) else "()"
+                lines += ["try { var k = objs[%d].new; var r = k%s; print(r == objs[%d]); print(type(r)); } catch e { print(type(e)); print(e.context); }" % (j, arg, j)]
+            if self.r.chance(1, 3) and "derives" not in methods:
+                self.tag("derives-as-value")
+                lines += ["try { var d = objs[%d].derives; print(d(%s)); print(d(%s)); } catch e { print(type(e)); print(e.context); }" % (j, names[0], names[-1])]
         if self.r.chance(1, 2):
             self.tag("rebinding")
             lines += ["var %s_old = %s;" % (names[0], names[0]), "%s = nil;" % names[0]]
